@@ -47,7 +47,10 @@ pub struct PsoCase {
     /// (generic assembly only) bit 0: a sampling phase (60 random points, evaluated, best-so-far updated) runs before a
     /// fresh swarm is created, so a best-so-far individual that is not a particle exists when the swarm is initialised;
     /// bit 1: a second linear schedule with the same bounds, driven by the same progress, for the inertia weight of
-    /// another (identifier A) velocity update runs right before the swarm's own schedule
+    /// another (identifier A) velocity update runs right before the swarm's own schedule;
+    /// bit 2: the state update is the custom block [global best update, personal bests update] (reversed order);
+    /// bit 3: the loop condition is `LessThanN::evaluations(huge) | LessThanN::iterations(n)` (the iteration bound that
+    /// feeds the progress stands second in a disjunction)
     #[serde(default)]
     pub extras: u8,
 }
@@ -68,6 +71,7 @@ struct A18 {
     last_pbest: Vec<f64>,
     swarm_ready: bool,
     paired_linear: bool,
+    iters: u32,
     clamped_steps: u32,
     pbest_improvements: u32,
     passes: u32,
@@ -190,14 +194,22 @@ impl Audit<RealP> for A18 {
                     return;
                 }
                 self.weight_updates += 1;
-                let progress = state.try_get_value::<Progress<ValueOf<Iterations>>>().unwrap_or(f64::NAN);
+                // the loop's current progress: completed passes / iteration bound (computed here, not read from the
+                // progress state - a stale progress state would otherwise make a stale weight look right)
+                let progress = state.try_get_value::<Iterations>().map(|i| f64::from(i) / f64::from(self.iters)).unwrap_or(f64::NAN);
+                let stored = state.try_get_value::<Progress<ValueOf<Iterations>>>().unwrap_or(f64::NAN);
+                if stored.to_bits() != progress.to_bits() {
+                    return self.fail("progress state is not passes / iteration bound when the inertia weight is updated", format!("stored progress {stored}, iterations / n = {progress}"));
+                }
                 let want = (self.w1 - self.w0) * progress + self.w0;
                 let got = state.try_get_value::<W>().unwrap_or(f64::NAN);
                 if got.to_bits() != want.to_bits() {
                     return self.fail("inertia weight is not the linear interpolation at the current progress", format!("progress {progress}: weight {got}, expected (end - start) * progress + start = {want}"));
                 }
             }
-            "GlobalBestParticleUpdate" if ev.ok => {
+            // the swarm's memories are audited when a state update is complete: after whichever of the two update
+            // components stands last in its block (the shipped update runs personal bests first, a custom one may not)
+            "GlobalBestParticleUpdate" | "PersonalBestParticlesUpdate" if ev.ok && ev.index + 1 == ev.len => {
                 self.swarm_ready = true;
                 let bests: Vec<(f64, u64)> = state.try_borrow::<BestParticles<RealP, Global>>().map(|b| b.iter().map(|i| (i.objective().value(), hash_f64s(i.solution()))).collect()).unwrap_or_default();
                 let g = state.try_borrow::<BestParticle<RealP, Global>>().ok().and_then(|b| b.as_ref().map(|i| (i.objective().value(), hash_f64s(i.solution()))));
@@ -295,7 +307,7 @@ fn pso_oracle(c: &PsoCase, cl: &mut u64) -> Result<(), Failure> {
     if paired {
         *cl |= 256;
     }
-    let audit = Arc::new(Mutex::new(A18 { vmax, c1: c.c1, c2: c.c2, w0: c.w0, w1: c.w1, paired_linear: paired, ..Default::default() }));
+    let audit = Arc::new(Mutex::new(A18 { vmax, c1: c.c1, c2: c.c2, w0: c.w0, w1: c.w1, paired_linear: paired, iters: c.iters, ..Default::default() }));
     let res = run_observed(&cfg, &problem, c.seed, EvalKind::Sequential, audit.clone());
     let a = audit.lock().unwrap();
     if a.clamped_steps > 0 {
@@ -351,9 +363,13 @@ fn generic_pso(c: &PsoCase, v_init: f64, v_max: f64) -> mahf::ExecResult<mahf::C
                 particle_update: swarm::pso::ParticleVelocitiesUpdate::new(c.w0, c.c1, c.c2, v_max)?,
                 constraints: boundary::Saturation::new(),
                 inertia_weight_update: Some(schedule),
-                state_update: swarm::pso::ParticleSwarmUpdate::new(),
+                state_update: if c.extras & 4 != 0 {
+                    Block::new(vec![swarm::pso::GlobalBestParticleUpdate::<Global>::new(), swarm::pso::PersonalBestParticlesUpdate::<Global>::new()])
+                } else {
+                    swarm::pso::ParticleSwarmUpdate::new()
+                },
             },
-            LessThanN::iterations(c.iters),
+            if c.extras & 8 != 0 { LessThanN::evaluations(c.n * (1 + c.iters / 2)) | LessThanN::iterations(c.iters) } else { LessThanN::iterations(c.iters) },
         ))
         .build())
 }
@@ -422,7 +438,7 @@ fn pso_strategy(max_iters: u32) -> impl Strategy<Value = PsoCase> {
         prop_oneof![2 => Just(RealKind::Sphere), 2 => Just(RealKind::Rastrigin), 2 => Just(RealKind::Slope), 2 => Just(RealKind::ShiftedOutside), 2 => Just(RealKind::Plateau), 3 => Just(RealKind::Infeasible)],
         prop_oneof![Just((-5.0, 5.0)), Just((0.0, 1.0)), Just((3.0, 7.0)), Just((-100.0, 100.0))],
         1u32..=max_iters,
-        (any::<u64>(), prop_oneof![3 => Just(None), 2 => prop_oneof![Just(0.001), Just(0.1), Just(1.0), Just(10.0), Just(50.0)].prop_map(Some)], 0u8..4),
+        (any::<u64>(), prop_oneof![3 => Just(None), 2 => prop_oneof![Just(0.001), Just(0.1), Just(1.0), Just(10.0), Just(50.0)].prop_map(Some)], 0u8..16),
     )
         .prop_map(|(n, w0, w1, c1, c2, vmax_rel, dim, kind, (lo, hi), iters, (seed, vinit_rel, extras))| PsoCase { n, w0, w1, c1, c2, vmax_rel, dim, kind, lo, hi, iters, seed, vinit_rel, extras })
 }
